@@ -96,8 +96,11 @@ def check_plain(case):
                     bad.append(("inverse", f"{where}: inv(forward(x)) = {xr.tolist()}"))
             except NotImplementedError:
                 pass
-            # the transformed parameter: update the underlying parameter, then call
+            # the transformed parameter: update the underlying parameter, then read the value and
+            # the log-Jacobian - in both orders (alternating along the lattice)
             xpar.tensor = x
+            if n % 2 == 0:
+                _ = tp.tensor
             got2 = tp()
             if tuple(got2.shape) != tuple(ref.shape) or float((got2 - ref).abs().max()) > TOL_J:
                 bad.append(("transformed_parameter_call",
